@@ -153,11 +153,12 @@ def run(ctx, res):
                         "max|df|": float(np.abs(m.fractions[-1] - f0).max()), "F_relerr": float(relerr)})
 
     # ---------------- (c) failed updates leave the stored history untouched
-    n_f = 24 if not ctx["thorough"] else 72
+    n_f = 30 if not ctx["thorough"] else 90
     for k in range(n_f):
         mode = ["unsupported_regime", "switch_midway", "L_raises", "bad_regime_ordinal", "position_raises", "mismatched_fabric",
                 "null_mineral_unsupported_callable", "null_mineral_bad_ordinal_callable", "bad_fabric_ordinal", "bad_phase_ordinal",
-                "unsupported_regime_zero_L", "bad_regime_ordinal_zero_L"][k % 12]
+                "unsupported_regime_zero_L", "bad_regime_ordinal_zero_L", "mismatched_fabric_zero_L", "bad_fabric_ordinal_rigid_rotation",
+                "bad_phase_ordinal_zero_L"][k % 15]
         sc = solver.make_scenario(rng, k, nmax=10)
         sc["n_updates"] = 1
         m = solver.build_mineral(sc)
@@ -205,6 +206,19 @@ def run(ctx, res):
             # no flow at all: the ordinals are still checked (the unrepaired code returned before the regime dispatch)
             m.regime = int(rng.choice([2, 3, 5])) if mode.startswith("unsupported") else int(rng.choice(BAD_ORDINALS))
             getL = lambda t, x: np.zeros((3, 3))  # noqa: E731
+        elif mode in ("mismatched_fabric_zero_L", "bad_fabric_ordinal_rigid_rotation", "bad_phase_ordinal_zero_L"):
+            # the (phase, fabric) pair is validated whatever the flow: also when no grain can slip (L = 0, rigid rotation)
+            if mode.startswith("mismatched"):
+                m.fabric = core.MineralFabric.enstatite_AB if int(m.phase) == 0 else core.MineralFabric.olivine_A
+            elif mode.startswith("bad_fabric"):
+                m.fabric = int(rng.choice([6, -1, 255, 256]))
+            else:
+                m.phase = int(rng.choice([2, -1, 256]))
+            m.regime = core.DeformationRegime(int(rng.choice([4, 6])))
+            W_ = np.zeros((3, 3))
+            if "rigid" in mode:
+                W_[0, 1], W_[1, 0] = 1.5, -1.5
+            getL = lambda t, x, W_=W_: W_.copy()  # noqa: E731
         elif mode == "bad_fabric_ordinal":
             m.fabric = int(rng.choice([6, -1, 255, 256, 259, 513, 65536 + 2]))
         elif mode == "bad_phase_ordinal":
